@@ -7,7 +7,10 @@ The JSON holds {"events": [...], "panel": bool}.  Events (lists):
   ["read", T, atom, name]    value of T.atom.name (deep view, digested)
   ["has",  T, atom, name]    hasattr(T.atom, name)
   ["set",  T, atom, name]    T.atom.name = ("verif_user", T)
-  ["mut",  T, atom, name]    in-place mutation of the object T.atom.name (a mark naming T)
+  ["mut",  T, atom, name]    in-place mutation of the object T.atom.name AND of every mutable object a user reaches
+                             from it (dict values, list items, attributes, magnetic_ff[charge], activation records,
+                             the numpy array of xray.sftable, neutron.nsf_table): objects get a mark naming T,
+                             arrays are really overwritten in place (x2) and remembered
   ["import", module]         import periodictable.<module>
   ["calc", calc, T]          a calculator call (see CALCS)
   ["init", key, T]           <module>.<function>(T), key e.g. "nsf.init", "xsf.init_spectral_lines"
@@ -52,6 +55,13 @@ class Viewer:
     def __init__(self, own):
         self.own = own
         self.marks = set()
+        self.where = {}         # table -> places in the value where its mark was found ("" = the object itself)
+        self.path = []
+
+    def found(self, tables):
+        self.marks.update(tables)
+        for t in tables:
+            self.where.setdefault(t, set()).add(".".join(self.path))
 
     def atom(self, a):
         from periodictable import core
@@ -83,31 +93,37 @@ class Viewer:
         if isinstance(v, np.generic):
             return self.view(v.item(), depth)
         if isinstance(v, np.ndarray):
-            return ["array", list(v.shape), hashlib.sha1(repr(v.tolist()).encode()).hexdigest()[:12]]
+            shown = v
+            for arr, orig, tabs in MUTATED:
+                if np.shares_memory(v, arr):
+                    self.found(tabs)
+                    if v.shape == orig.shape:
+                        shown = orig        # the digest is that of the data before the marked overwrite
+            return ["array", list(shown.shape), hashlib.sha1(repr(shown.tolist()).encode()).hexdigest()[:12]]
         if isinstance(v, (core.Element, core.Isotope, core.Ion)):
             return self.atom(v)
         if isinstance(v, tuple):
             if len(v) == 2 and v[0] == MARK:
-                self.marks.update(v[1])
+                self.found(v[1])
                 return None
             if len(v) == 2 and v[0] == USER:
                 return [USER, v[1]]
-            return ["tuple"] + [self.view(x, depth + 1) for x in v]
+            return ["tuple"] + [self.sub(str(i), x, depth) for i, x in enumerate(v)]
         if isinstance(v, list):
             out = []
-            for x in v:
+            for i, x in enumerate(v):
                 if isinstance(x, tuple) and len(x) == 2 and x[0] == MARK:
-                    self.marks.update(x[1])
+                    self.found(x[1])
                 else:
-                    out.append(self.view(x, depth + 1))
+                    out.append(self.sub("[]", x, depth))
             return ["list"] + out
         if isinstance(v, dict):
             out = []
             for k in sorted(v, key=repr):
                 if k == MARK:
-                    self.marks.update(v[k])
+                    self.found(v[k])
                 else:
-                    out.append([self.view(k, depth + 1), self.view(v[k], depth + 1)])
+                    out.append([self.view(k, depth + 1), self.sub("[%s]" % (k,), v[k], depth)])
             return ["dict"] + out
         if hasattr(v, "__dict__"):
             d = dict(v.__dict__)
@@ -117,26 +133,65 @@ class Viewer:
                 d.pop("_table", None)          # file cache: load state is not a served value
                 try:
                     t = v.sftable
-                    extra = [["sftable", self.view(t, depth + 1)]]
+                    extra = [["sftable", self.sub("sftable", t, depth)]]
                 except Exception as e:  # noqa
                     extra = [["sftable", "raises " + err_kind(e)]]
             out = []
             for k in sorted(d):
                 if k == MARK:
-                    self.marks.update(d[k])
+                    self.found(d[k])
                 else:
-                    out.append([k, self.view(d[k], depth + 1)])
+                    out.append([k, self.sub(k, d[k], depth)])
             return ["obj", name] + out + extra
         return ["repr", type(v).__name__]
+
+
+def _sub(self, name, x, depth):
+    self.path.append(name)
+    try:
+        return self.view(x, depth + 1)
+    finally:
+        self.path.pop()
+
+
+Viewer.sub = _sub
+MUTATED = []        # (array overwritten in place, copy of its data before, set of tables that did it)
 
 
 def digest(x):
     return hashlib.sha1(json.dumps(x, sort_keys=True).encode()).hexdigest()[:16]
 
 
-def mark(obj, tname):
-    """in-place mutation that the viewer recognises; returns False for immutable values"""
+def mark(obj, tname, depth=0, seen=None):
+    """in-place mutation, by table tname, of obj and of every mutable object reachable from it the way a user
+    reaches it; returns False when there was nothing mutable"""
+    import numpy as np
+    from periodictable import core
+    seen = set() if seen is None else seen
+    if depth > 4 or id(obj) in seen or isinstance(obj, (core.Element, core.Isotope, core.Ion)):
+        return False
+    seen.add(id(obj))
+    if obj is None or isinstance(obj, (bool, int, float, str, complex)):
+        return False
+    if isinstance(obj, np.ndarray):
+        if not obj.flags.writeable or obj.dtype.kind not in "fc" or obj.size == 0:
+            return False
+        for ent in MUTATED:
+            if np.shares_memory(obj, ent[0]):
+                ent[2].add(tname)
+                break
+        else:
+            MUTATED.append((obj, obj.copy(), {tname}))
+        obj *= 2            # a real overwrite: everything computed from the array changes
+        return True
+    if isinstance(obj, tuple):
+        if len(obj) == 2 and obj[0] in (MARK, USER):
+            return False
+        return any([mark(x, tname, depth + 1, seen) for x in obj])
     if isinstance(obj, dict):
+        for k in list(obj):
+            if k != MARK:
+                mark(obj[k], tname, depth + 1, seen)
         obj[MARK] = sorted(set(obj.get(MARK, [])) | {tname})
         return True
     if isinstance(obj, list):
@@ -145,11 +200,19 @@ def mark(obj, tname):
         for x in old:
             names.update(x[1])
             obj.remove(x)
+        for x in list(obj):
+            mark(x, tname, depth + 1, seen)
         obj.append((MARK, sorted(names)))
         return True
-    if obj is None or isinstance(obj, (bool, int, float, str, tuple, complex)):
-        return False
     if hasattr(obj, "__dict__"):
+        for k, v in list(obj.__dict__.items()):
+            if k != MARK:
+                mark(v, tname, depth + 1, seen)
+        if type(obj).__name__ == "Xray":
+            try:
+                mark(obj.sftable, tname, depth + 1, seen)
+            except Exception:  # noqa
+                pass
         obj.__dict__[MARK] = sorted(set(obj.__dict__.get(MARK, [])) | {tname})
         return True
     return False
@@ -169,7 +232,8 @@ def main():
         x = vw.view(val)
         if isinstance(x, list) and len(x) == 2 and x[0] == USER:
             return dict(k="user", t=x[1])
-        return dict(k="val", d=digest(x), marks=sorted(vw.marks))
+        return dict(k="val", d=digest(x), marks=sorted(vw.marks),
+                    where={t: sorted(p) for t, p in vw.where.items()})
 
     def calc(name, T):
         t = tables[T]
